@@ -217,6 +217,7 @@ template <class T> static void run_T(Choice &c, Ctx &cx)
     sc.G = G;
     sc.expert = c.chance(100);
     sc.o = gen_opts(c, n, single, true, sc.expert);
+    if (c.chance(24)) sc.o.u = 0.0;       // DiagPivotThresh is documented for [0,1]; with 0 the diagonal is taken whenever it is nonzero
     if (sc.expert && sc.o.equil) sc.plain_ints = false;
     sc.o.refine = NOREFINE;
     static const unsigned wn[] = {6, 2, 2}; sc.nrhs = (int)c.weighted(wn) == 1 ? 0 : (c.chance(128) ? 1 : 2);
